@@ -251,8 +251,9 @@ class PathEnd:
         self.stmts = stmts  # executed simple statements (environment applied to their values)
 
 
-def enum_paths(fn: FuncNode, limit: int = 512) -> list[PathEnd]:
-    """All syntactic paths of a loop-free function body.  Fails closed on loops/try/with."""
+def enum_paths(fn: FuncNode, limit: int = 512, opaque: bool = False) -> list[PathEnd]:
+    """All syntactic paths of a loop-free function body.  Fails closed on loops/try/with, unless `opaque`:
+    then a compound statement without `return` counts as one statement that completes normally."""
     out: list[PathEnd] = []
 
     def ap(env: dict[str, ast.AST], e: ast.AST) -> ast.AST:
@@ -299,7 +300,14 @@ def enum_paths(fn: FuncNode, limit: int = 512) -> list[PathEnd]:
                 return
             if isinstance(s, (ast.For, ast.AsyncFor, ast.While, ast.Try, ast.With, ast.AsyncWith)) or (
                     hasattr(ast, "TryStar") and isinstance(s, ast.TryStar)):
-                raise AnalysisError(f"{fn.name}: {type(s).__name__} in a dispatch function is not supported")
+                if not opaque or any(isinstance(n, ast.Return) for n in walk_own(s)):
+                    raise AnalysisError(f"{fn.name}: return inside {type(s).__name__} in a dispatch function is not supported")
+                # opaque: it completes normally (its raising exits end the call and decide nothing here)
+                done.append(copy.deepcopy(s))
+                for n in ast.walk(s):
+                    if isinstance(n, ast.Name) and isinstance(n.ctx, (ast.Store, ast.Del)):
+                        env.pop(n.id, None)
+                continue
             if isinstance(s, _DEFS):
                 continue
             s2 = copy.deepcopy(s)
